@@ -328,3 +328,39 @@ package kvindex
 //@   ensures frame: forall k:Str :: firstcomp(k) != lit_t && k != dk && !(exists j :: 0 <= j && j < sllen(L) && k == slnth(L, j)) ==>
 //@       ((kvhas(k) <==> old(kvhas(k))) && kvval(k) == old(kvval(k)))
 //@   ensures atomic: kvwrites() <= old(kvwrites()) + 1
+
+// ---- C09: a term match is a scan of the entries stored for the term ----------------------
+// GetTermMatch's producer, for a string term: the documents sent are exactly the document
+// parts of the entry keys stored under EntryValuePrefix(field, string, term) - one per
+// stored entry, in key order, no document twice - all of them when no maximum is given,
+// and never more than the maximum otherwise; nothing is written. Assumes a context that is
+// not cancelled and well-formed entry keys under the prefix.
+//@ func (*KVIndex).GetTermMatch$1
+//@   vars value field out idx ctx maxCount term ttype entryPrefix count it doc
+//@   property C09
+//@   option prelude=keys,kv,idxkeys,idxcount,ctx,json
+//@   option load=kvi
+//@   option globals=kvindex
+//@   modifies alloc KV.it Ch SH. Box.
+//@   requires nonnil: idx != nil && idx.KV != nil
+//@   requires fresh: out != nil && wr(out) == 0 && !closed(out) && out != ctxdone(ctx)
+//@   requires live: chlen(ctxdone(ctx)) == 0 && !closed(ctxdone(ctx)) && rd(ctxdone(ctx)) == 0
+//@   requires term: isAStr(value) && nozero(field) && nozero(astr(value))
+//@   let pre = entryValuePrefixOf(field, 1, astr(value))
+//@   requires wf: forall k:Str :: kvhas(k) && hasprefix(k, pre) ==>
+//@       nozero(slnth(bsplit(slnth(bsplitn(k, sep0, 4), 3), sep0), 1)) &&
+//@       k == entryKeyOf(field, 1, astr(value), slnth(bsplit(slnth(bsplitn(k, sep0, 4), 3), sep0), 1))
+//@   loop 101 invariant store: same(kvdom(), old(kvdom())) && same(kvvals(), old(kvvals())) && kvwrites() == old(kvwrites())
+//@   loop 101 invariant open: !closed(out) && chlen(ctxdone(ctx)) == 0 && !closed(ctxdone(ctx)) && rd(ctxdone(ctx)) == 0 && entryPrefix == pre
+//@   loop 101 invariant iter: itvalid() ==> kvhas(itpos()) && ble(entryPrefix, itpos())
+//@   loop 101 invariant count: wr(out) == count && count >= 0 && (maxCount > 0 ==> count < maxCount)
+//@   loop 101 invariant scan: (itvalid() ==> count == pbelow(kvdom(), entryPrefix, itpos())) && (!itvalid() ==> count == pcount(kvdom(), entryPrefix))
+//@   loop 101 invariant elems: forall j :: 0 <= j && j < wr(out) ==> kvhas(entryKeyOf(field, 1, astr(value), out[j]))
+//@   loop 101 invariant order: itvalid() ==> (forall j :: 0 <= j && j < wr(out) ==> blt(entryKeyOf(field, 1, astr(value), out[j]), itpos()))
+//@   loop 101 invariant distinct: forall i, j :: 0 <= i && i < j && j < wr(out) ==> out[i] != out[j]
+//@   ensures closed: closed(out)
+//@   ensures all: maxCount <= 0 ==> wr(out) == pcount(kvdom(), pre)
+//@   ensures capped: maxCount > 0 ==> wr(out) <= maxCount
+//@   ensures stored: forall j :: 0 <= j && j < wr(out) ==> kvhas(entryKeyOf(field, 1, astr(value), out[j]))
+//@   ensures distinct: forall i, j :: 0 <= i && i < j && j < wr(out) ==> out[i] != out[j]
+//@   ensures readonly: same(kvdom(), old(kvdom())) && same(kvvals(), old(kvvals())) && kvwrites() == old(kvwrites())
